@@ -211,4 +211,107 @@ theorem not_noConflict_of_witness {t : Table} {e₁ e₂ : Entry} (he₁ : e₁ 
   have := h e₁ he₁ e₂ he₂ hc e₁.fn [] e₂.fn [] Runs.entry Runs.entry a₁ ha₁ a₂ ha₂ hf₁ hf₂ hconf
   simp [listed, anyB] at this
 
+/-! ### Sanity of the definitions (so that the table theorem says what it seems to say) -/
+
+theorem anyB_comm_guard (l₁ l₂ : List Lock) : guards l₁ l₂ = guards l₂ l₁ := by
+  unfold guards
+  cases h : anyB l₁ fun a => anyB l₂ fun b => if Nat.beq a.name b.name then (if a.excl then true else b.excl) else false
+  · symm
+    cases h' : anyB l₂ fun a => anyB l₁ fun b => if Nat.beq a.name b.name then (if a.excl then true else b.excl) else false
+    · rfl
+    · exfalso
+      rw [anyB_eq_true] at h'
+      obtain ⟨b, hb, hb'⟩ := h'
+      rw [anyB_eq_true] at hb'
+      obtain ⟨a, ha, hab⟩ := hb'
+      have : anyB l₁ (fun a => anyB l₂ fun b => if Nat.beq a.name b.name then (if a.excl then true else b.excl) else false) = true := by
+        rw [anyB_eq_true]
+        refine ⟨a, ha, ?_⟩
+        rw [anyB_eq_true]
+        refine ⟨b, hb, ?_⟩
+        split at hab
+        · rename_i hn
+          have hn' : Nat.beq a.name b.name = true := by rw [natBeq_eq hn]; exact Nat.beq_refl _
+          simp only [hn', if_true]
+          cases ha' : a.excl <;> cases hb'' : b.excl <;> simp_all
+        · exact absurd hab (by simp)
+      rw [h] at this
+      exact absurd this (by simp)
+  · rw [anyB_eq_true] at h
+    obtain ⟨a, ha, ha'⟩ := h
+    rw [anyB_eq_true] at ha'
+    obtain ⟨b, hb, hab⟩ := ha'
+    symm
+    rw [anyB_eq_true]
+    refine ⟨b, hb, ?_⟩
+    rw [anyB_eq_true]
+    refine ⟨a, ha, ?_⟩
+    split at hab
+    · rename_i hn
+      have hn' : Nat.beq b.name a.name = true := by rw [natBeq_eq hn]; exact Nat.beq_refl _
+      simp only [hn', if_true]
+      cases ha' : a.excl <;> cases hb'' : b.excl <;> simp_all
+    · exact absurd hab (by simp)
+
+/-- a conflict does not depend on the order of the two accesses -/
+theorem conflict_symm (a₁ a₂ : Access) (l₁ l₂ : List Lock) : conflict a₁ l₁ a₂ l₂ = conflict a₂ l₂ a₁ l₁ := by
+  unfold conflict synchronised
+  rw [anyB_comm_guard l₁ l₂]
+  by_cases h : a₁.loc = a₂.loc
+  · have h1 : Nat.beq a₁.loc a₂.loc = true := by rw [h]; exact Nat.beq_refl _
+    have h2 : Nat.beq a₂.loc a₁.loc = true := by rw [h]; exact Nat.beq_refl _
+    simp only [h1, h2, if_true]
+    cases a₁.write <;> cases a₂.write <;> cases a₁.atomic <;> cases a₂.atomic <;> simp
+  · have h1 : Nat.beq a₁.loc a₂.loc = false := by
+      cases hb : Nat.beq a₁.loc a₂.loc
+      · rfl
+      · exact absurd (natBeq_eq hb) h
+    have h2 : Nat.beq a₂.loc a₁.loc = false := by
+      cases hb : Nat.beq a₂.loc a₁.loc
+      · rfl
+      · exact absurd (natBeq_eq hb).symm h
+    simp [h1, h2]
+
+/-- two reads never conflict -/
+theorem no_conflict_of_reads {a₁ a₂ : Access} (h₁ : a₁.write = false) (h₂ : a₂.write = false) (l₁ l₂ : List Lock) :
+    conflict a₁ l₁ a₂ l₂ = false := by
+  unfold conflict
+  simp [h₁, h₂]
+
+/-- a common mutex held exclusively by one side rules a conflict out -/
+theorem no_conflict_of_common_lock {a₁ a₂ : Access} {l₁ l₂ : List Lock} {m : Nat} {x : Bool}
+    (h₁ : (⟨m, true⟩ : Lock) ∈ l₁) (h₂ : (⟨m, x⟩ : Lock) ∈ l₂) : conflict a₁ l₁ a₂ l₂ = false := by
+  have hg : guards l₁ l₂ = true := by
+    unfold guards
+    rw [anyB_eq_true]
+    refine ⟨_, h₁, ?_⟩
+    rw [anyB_eq_true]
+    refine ⟨_, h₂, ?_⟩
+    simp [Nat.beq_refl]
+  unfold conflict synchronised
+  simp [hg]
+
+/-- two atomic operations never conflict -/
+theorem no_conflict_of_atomic {a₁ a₂ : Access} (h₁ : a₁.atomic = true) (h₂ : a₂.atomic = true) (l₁ l₂ : List Lock) :
+    conflict a₁ l₁ a₂ l₂ = false := by
+  unfold conflict synchronised
+  simp [h₁, h₂]
+
+/-- two holders of the SHARED lock are not ordered: a write under `RLock` conflicts with a read under `RLock` -/
+theorem conflict_of_two_read_locks (a₁ a₂ : Access) (m : Nat) (hl : a₁.loc = a₂.loc) (hw : a₁.write = true)
+    (hat : a₁.atomic = false) : conflict a₁ [⟨m, false⟩] a₂ [⟨m, false⟩] = true := by
+  have h1 : Nat.beq a₁.loc a₂.loc = true := by rw [hl]; exact Nat.beq_refl _
+  unfold conflict synchronised guards
+  simp [h1, hw, hat, anyB, Nat.beq_refl]
+
+/-- a longer exception list only weakens the statement -/
+theorem NoConflictExcept.mono {t : Table} {k k' : Known} (hk : ∀ x ∈ k, x ∈ k') (h : NoConflictExcept t k) :
+    NoConflictExcept t k' := by
+  intro e₁ he₁ e₂ he₂ hc f₁ L₁ f₂ L₂ r₁ r₂ a₁ ha₁ a₂ ha₂ hf₁ hf₂ hconf
+  have := h e₁ he₁ e₂ he₂ hc f₁ L₁ f₂ L₂ r₁ r₂ a₁ ha₁ a₂ ha₂ hf₁ hf₂ hconf
+  unfold listed at this ⊢
+  rw [anyB_eq_true] at this ⊢
+  obtain ⟨x, hx, hx'⟩ := this
+  exact ⟨x, hk x hx, hx'⟩
+
 end ZChain.LockSet
